@@ -2,12 +2,13 @@ from propcommon import *  # noqa
 
 CFG = dict(
     level="proof",
-    lean_modules=["ElysModel.Props.C11"],
-    props_files=["ElysModel/Props/C11.lean"],
+    lean_modules=["ElysModel.Props.C11", "ElysModel.Props.C11Src"],
+    pre_cmds=[GO2LEAN],
+    props_files=["ElysModel/Props/C11.lean", "ElysModel/Props/C11Src.lean"],
     runs=[scn_run("c11"), hist_run(focus="perp."), fault_run(focus="perp.", whale=True), govpool_run(focus="amm.")],
     rule=HIST_RULE + "; plus directed scenarios (mode scn, prefix c11)",
-    trusted_base=COMMON_TB + ["per (pool, asset) the block's deltas of amm book, liabilities and custody are witnessed (W); TotalTokens and NonAmmPoolTokens are predicted"],
-    assumptions=["EnableTakeProfitCustodyLiabilities stays at its default false"],
+    trusted_base=COMMON_TB + [SRC_TB, "per (pool, asset) the block's deltas of amm book, liabilities and custody are witnessed (W); TotalTokens and NonAmmPoolTokens are predicted"],
+    assumptions=[SRC_ASSUME, "EnableTakeProfitCustodyLiabilities stays at its default false"],
     explanation="Theorems: each refresh function is correct when given the current amm balance; every interleaving of amm-side and perpetual-side operations "
                 "(as repaired) preserves total = book + L - C and nonAmm = L - C for all amounts; witnesses of the two pre-repair defects (stale snapshot in Open, "
                 "no hook after settlement). Predicates evaluated on every observed block.",
